@@ -28,15 +28,15 @@ Theorem C15_opt_is_minimax : forall (dfun : nat -> nat -> nat -> Q) cands p tot 
   | Top => ~ exists S, true_set cands p S /\ sufficient cands winner S      (* no audit possible *)
   | Bot => sufficient cands winner []                                       (* nothing to exclude *)
   end.
-Proof. intros dfun cands p tot winner Hnd. apply opt_dec_correct. exact Hnd. Qed.
+Proof. exact opt_dec_correct. Qed.
 Print Assumptions C15_opt_is_minimax.
 
 (* opt is the least threshold: opt <= d exactly when the true assertions of difficulty <= d are sufficient *)
-Theorem C15_opt_least_threshold : forall (dfun : nat -> nat -> nat -> Q) cands p tot winner d,
-  NoDup cands ->
+Theorem C15_opt_least_threshold : forall (dfun : nat -> nat -> nat -> Q) cands p tot winner,
+  NoDup cands -> forall d,
   (ele (opt dfun cands p tot winner) d = true <->
    sufficient cands winner (filter (fun a => Qle_bool (diff_of dfun p tot a) d) (all_true cands p))).
-Proof. intros dfun cands p tot winner d Hnd. apply opt_le_iff. exact Hnd. Qed.
+Proof. exact opt_le_iff. Qed.
 Print Assumptions C15_opt_least_threshold.
 
 (* ---- non-vacuity *)
